@@ -12,7 +12,7 @@ fn h(n: Names, t: &str) -> Names {
 pub fn doc_field(k: usize) -> P {
     let arg = |n: Names, mv: &str| P::Arg { names: n, ty: Ty::Os, adjacent: false, metavar: mv.into() };
     match k {
-        0 => P::Switch(h(Names::both('a', "alpha"), "alpha switch help")),
+        0 => P::Switch(h(Names::both('a', "alpha").env("BPAFMC_DOC"), "alpha switch help")),
         1 => arg(h(Names::long("beta").env("BPAFMC_DOC"), "beta argument help"), "BETA"),
         2 => arg(Names::short('c'), "CEE"),
         3 => P::Switch(h(Names::both('d', "delta"), "hidden thing")).hide(),
@@ -53,7 +53,7 @@ pub fn doc_field(k: usize) -> P {
         // an adjacent group whose value is matched by `any` (KEY=VAL) and has its own help row
         19 => P::Adj(vec![
             P::ReqFlag(h(Names::long("set"), "set a key")),
-            P::AnyKv { metavar: "KEY=VAL".into(), help: Some(DocSpec::plain("key value pair")) },
+            P::AnyKv { metavar: "KEY=VAL".into(), help: Some(DocSpec::plain("key value pair")), dash: false },
         ])
         .many(),
         _ => unreachable!(),
@@ -84,7 +84,11 @@ pub fn doc_tails() -> Vec<Vec<P>> {
         // from them must stay distinct)
         vec![P::Alt(vec![
             P::Cmd { name: "remote-add".into(), shorts: vec![], longs: vec![], inner: Box::new(Opts::new(P::Seq(vec![P::Switch(h(Names::long("dashed"), "flag of the dashed command"))]))), adjacent: false, help: Some(DocSpec::plain("dashed name")) },
-            P::Cmd { name: "remote".into(), shorts: vec![], longs: vec![], inner: Box::new(Opts::new(P::Seq(vec![P::Cmd { name: "add".into(), shorts: vec![], longs: vec![], inner: Box::new(Opts::new(P::Seq(vec![P::Switch(h(Names::long("nested"), "flag of the nested command"))]))), adjacent: false, help: Some(DocSpec::plain("nested name")) }]))), adjacent: false, help: Some(DocSpec::plain("outer of the nested")) },
+            P::Cmd { name: "remote".into(), shorts: vec![], longs: vec![], inner: Box::new(Opts::new(P::Seq(vec![P::Alt(vec![
+                P::Cmd { name: "add".into(), shorts: vec![], longs: vec![], inner: Box::new(Opts::new(P::Seq(vec![P::Switch(h(Names::long("nested"), "flag of the nested command"))]))), adjacent: false, help: Some(DocSpec::plain("nested name")) },
+                P::Cmd { name: "remove".into(), shorts: vec![], longs: vec![], inner: Box::new(Opts::new(P::Seq(vec![P::Switch(h(Names::long("purge"), "flag of the second nested command"))]))), adjacent: false, help: Some(DocSpec::plain("second nested")) },
+                P::Cmd { name: "rename".into(), shorts: vec![], longs: vec![], inner: Box::new(Opts::new(P::Seq(vec![P::Switch(h(Names::long("force-rename"), "flag of the third nested command"))]))), adjacent: false, help: Some(DocSpec::plain("third nested")) },
+            ])]))), adjacent: false, help: Some(DocSpec::plain("outer of the nested")) },
         ])],
         // a command sharing a titled group with a flag that comes first
         vec![P::GroupHelp(P::Seq(vec![P::Switch(h(Names::long("victor"), "flag next to a command")), c1]).bx(), DocSpec::plain("Flag and command together"))],
